@@ -8,7 +8,10 @@ import (
 	"crypto/rsa"
 	"crypto/x509"
 	"fmt"
+	"github.com/hashicorp/nodeenrollment"
+	"github.com/mr-tron/base58"
 	"runtime/debug"
+	"strings"
 	"sync"
 	"time"
 
@@ -212,4 +215,13 @@ func dirty(m protoreflect.Message, depth int) {
 			}
 		}
 	}
+}
+
+// TokenNonce decodes an activation token into the nonce a fetch request carries for it.
+func TokenNonce(token string) []byte {
+	b, err := base58.FastBase58Decoding(strings.TrimPrefix(token, nodeenrollment.ServerLedActivationTokenPrefix))
+	if err != nil {
+		panic(err)
+	}
+	return b
 }
